@@ -413,9 +413,9 @@ Definition fq (q : Q) : float :=
   | _ => of_Q Fops q
   end.
 
-(* The trace of a history, printed sparsely: the mean after every step (step 0 = after initiate, step k =
-   after the k-th operation); the covariance and the distance of a probe measurement only after the steps
-   listed in [covsteps] (ascending; [probes] is aligned with it). *)
+(* The trace of a history, printed sparsely (printing, not computing, dominates the cost): mean, covariance
+   and the distance of a probe measurement after the steps listed in [covsteps] (ascending; [probes] is aligned
+   with it; step 0 = after initiate, step k = after the k-th operation); nothing for the other steps. *)
 Section Out.
   Variable Ops : NumOps.
   Variable A : Type.
@@ -424,7 +424,7 @@ Section Out.
 
   Definition st_out (F : kfilter Ops) (st : kstate Ops) (full : bool) (probe : vec Ops)
     : list A * list (list A) * list A :=
-    (map out (mean st),
+    ((if full then map out (mean st) else []),
      if full then map (map out) (cov st) else [],
      if full then map out (dist F st probe) else []).
 
